@@ -191,6 +191,94 @@ def sweep(fx, R):
                                        ', '.join(changeable)), fx.rel(x.get('loc') or f['loc']), 'E-PURE')
                     elif srcs:
                         R.holds('H4', inst, 'cache of %s, which nothing but the constructors writes' % ', '.join(srcs), fx.rel(x.get('loc') or f['loc']), 'E-PURE')
+    # ---- H5: a member cache keyed on the argument only -------------------------------------------------------------------------
+    # `if (arg != key_) { key_ = arg; cached_ = g(arg, other members) }  ... use cached_`: the cached value is refreshed only when the argument changes.
+    # When g also reads a member that another method of the class writes, the same argument after that call gets the value of the old state.
+    def base_member(e):
+        e = strip_casts(e) if e is not None else None
+        for _ in range(6):
+            if e is None:
+                return None
+            if e.get('k') == 'Member' and e.get('field'):
+                return e
+            if e.get('k') == 'Op' and e.get('op') in ('[]', '()') and e.get('args'):
+                e = strip_casts(e['args'][0])
+            elif e.get('k') == 'MCall':
+                e = strip_casts(e.get('obj'))
+            else:
+                return None
+        return None
+
+    def stores_in(node):
+        out = []
+        for y in walk(node):
+            if isinstance(y, dict) and ((y.get('k') == 'Bin' and y.get('op') in ('=', '+=', '-=', '*=', '/=', '%=')) or (y.get('k') == 'Op' and y.get('op') in ('=', '+=', '-=', '*=', '/=', '%=') and len(y.get('args', [])) == 2)):
+                l_, r_ = (y['l'], y['r']) if y.get('k') == 'Bin' else (y['args'][0], y['args'][1])
+                bm = base_member(l_)
+                if bm is not None:
+                    out.append((bm, r_))
+        return out
+
+    def member_reads(node, cls, seen=None, depth=0):
+        seen = seen if seen is not None else set()
+        out = set()
+        for y in walk(node):
+            if not isinstance(y, dict):
+                continue
+            if y.get('k') == 'Member' and y.get('field') and y.get('cls') == cls:
+                out.add(y['name'])
+            if y.get('inrepo') and y.get('fk') and depth < 4 and y['fk'] not in seen:
+                g_ = fx.functions.get(y['fk'])
+                if g_ is not None and g_.get('body') is not None and g_.get('cls') == cls:
+                    seen.add(y['fk'])
+                    out |= member_reads(g_['body'], cls, seen, depth + 1)
+        return out
+    all_writers = {}
+    for g in fx.functions.values():
+        if g.get('body') is None or g.get('ctor') or not g.get('cls'):
+            continue
+        for (bm, _) in stores_in(g['body']):
+            all_writers.setdefault((bm.get('cls'), bm.get('name')), set()).add(g['q'])
+    for f in sorted(fns, key=lambda f: f['q']):
+        cls = f.get('cls')
+        if not cls or f.get('ctor') or f.get('body') is None:
+            continue
+        pids = {p['id'] for p in f.get('params', [])}
+        for x in walk(f['body']):
+            if not (isinstance(x, dict) and x.get('k') == 'If'):
+                continue
+            c = strip_casts(x['c'])
+            op = c.get('op') if c.get('k') in ('Bin', 'Op') else None
+            if op not in ('!=', '=='):
+                continue
+            sides = (c['l'], c['r']) if c.get('k') == 'Bin' else tuple(c.get('args', [])[:2])
+            if len(sides) != 2:
+                continue
+            key = next((base_member(s_) for s_ in sides if base_member(s_) is not None and base_member(s_).get('cls') == cls), None)
+            has_param = any(isinstance(y, dict) and y.get('k') == 'Ref' and y.get('id') in pids for s_ in sides for y in walk(s_))
+            if key is None or not has_param:
+                continue
+            miss = x.get('t') if op == '!=' else x.get('e')
+            if miss is None:
+                continue
+            st_ = stores_in(miss)
+            names_ = {bm['name'] for (bm, _) in st_ if bm.get('cls') == cls}
+            if key['name'] not in names_ or len(names_) < 2:
+                continue
+            for (bm, rhs) in st_:
+                if bm.get('cls') != cls or bm['name'] == key['name']:
+                    continue
+                deps = member_reads(rhs, cls) - names_
+                stale = {o_: sorted(w_ for w_ in all_writers.get((cls, o_), ()) if w_ != f['q']) for o_ in deps}
+                stale = {o_: w_ for o_, w_ in stale.items() if w_}
+                inst = '%s:keyed-cache:%s' % (f['q'].split('(')[0], bm['name'])
+                if stale:
+                    o_ = sorted(stale)[0]
+                    R.violated('H5', inst, '`%s` is recomputed only when the argument differs from `%s` (`%s`), but it is computed from %s too, which %s changes: after that call the SAME argument is answered with the '
+                               'value computed for the old %s - the result depends on which arguments were used before, not only on the object\'s state and the argument' % (
+                                   bm['name'], key['name'], pp(x['c'])[:80], ', '.join(sorted(stale)), stale[o_][0].split('(')[0].split('::')[-1] + '()', o_), fx.rel(x.get('loc') or f['loc']), 'E-PURE')
+                elif deps:
+                    R.holds('H5', inst, 'cache keyed on the argument; the other members it is computed from (%s) are written by no other method' % ', '.join(sorted(deps)), fx.rel(x.get('loc') or f['loc']), 'E-PURE')
     # ---- H2: single precision inside a double computation -----------------------------------------------------------------
     prec = PRECISION.get(getattr(R, 'prop', None))
     if prec is not None:
